@@ -3,7 +3,7 @@
     Model: AnalysisDefs.v (faithful transcription of the classification core of src/analyser.cpp);
     executable specification: AnalysisSpec.v (the same predicate is evaluated on the real AnalyserModel). *)
 From Coq Require Import List Bool Arith Permutation.
-From LC Require Import AnalysisDefs AnalysisSpec AnalysisProofs AnalysisWfProofs AnalysisOwnProofs AnalysisRenameProofs AnalysisConfluenceProofs AnalysisWitness.
+From LC Require Import AnalysisDefs AnalysisSpec AnalysisProofs AnalysisWfProofs AnalysisOwnProofs AnalysisRenameProofs AnalysisConfluenceProofs AnalysisDefinerProofs AnalysisWitness.
 Import ListNotations.
 
 (** ** Termination of the do/while over mInternalEquations *)
@@ -53,9 +53,8 @@ Print Assumptions C05_result_wf_indices.
     every internal variable that was given a direct type (computed constant, algebraic, or a state that received
     its index) is listed in mUnknownVariables of EXACTLY ONE equation, which lists nothing else and whose type
     matches; a variable turned into an NLA unknown (INITIALISED_ALGEBRAIC) is listed only by NLA equations; every
-    other variable by none.  (Stated on the internal state after the loop; the re-packaging of that state into
-    AnalyserVariable::equations() / AnalyserEquation::variables() is compared with the library on every run but
-    is NOT PROVED.) *)
+    other variable by none.  (Stated on the internal state after the loop; the result-level statement is
+    C05_result_wf_one_definer below.) *)
 Theorem C05_one_definer_partial : forall s ivs0 es0 st es1,
   build s = Some (ivs0, es0) -> vs_issues (analyse_asts s ivs0 es0) = [] ->
   loop s (loop_fuel es0) 1 false (mkCs (vs_ivs (analyse_asts s ivs0 es0)) 0 0) es0 = Some (st, es1) ->
@@ -75,6 +74,30 @@ Theorem C05_result_wf_definers_refuted :
   exists s r, analyse s = Done r /\ valid_type (r_type r) = true /\ wf_definers r = false.
 Proof. exists split_sys. exact AnalysisWitness.split_witness. Qed.
 Print Assumptions C05_result_wf_definers_refuted.
+
+(** ... and a valid model can have states computed by NO equation: an equation in which two states are still
+    without index never gets a type, raises no issue and is discarded. *)
+Theorem C05_result_wf_definers_refuted_states :
+  exists s r, analyse s = Done r /\ r_type r = MOde /\ length (r_states r) = 2 /\ r_eqs r = [] /\ wf_definers r = false.
+Proof. exists two_states_sys. exact AnalysisWitness.two_states_witness. Qed.
+Print Assumptions C05_result_wf_definers_refuted_states.
+
+(** result_wf_one_definer (the _partial of the two refutations above, at the level of the RESULT): in a valid
+    result every state and every computed variable is computed by exactly one equation, which computes nothing else
+    and has the matching type, or by NLA equations only, each of which lists it and carries a system index
+    ([wf_definers_weak]) -- provided every state received its index in the loop ([states_have_odes], which is exactly
+    what fails in C05-state-without-equation).  If moreover the NLA equations computing one variable carry one system
+    index ([nla_index_consistent], exactly what fails in C05-nla-system-split) the full clause [wf_definers] holds. *)
+Theorem C05_result_wf_one_definer_weak : forall s r,
+  analyse s = Done r -> valid_type (r_type r) = true -> states_have_odes s -> wf_definers_weak r = true.
+Proof. exact AnalysisDefinerProofs.result_wf_definers_weak. Qed.
+Print Assumptions C05_result_wf_one_definer_weak.
+
+Theorem C05_result_wf_one_definer : forall s r,
+  analyse s = Done r -> valid_type (r_type r) = true ->
+  states_have_odes s -> nla_index_consistent r = true -> wf_definers r = true.
+Proof. exact AnalysisDefinerProofs.result_wf_definers. Qed.
+Print Assumptions C05_result_wf_one_definer.
 
 (** "Each equation depends on the equations computing the non-constant variables it reads" is FALSE as well: the
     dependency is lost when the variable read is later re-targeted to another component. *)
